@@ -415,7 +415,7 @@ func init() {
 	Register(Spec[c21EntryCase]{
 		ID: "C21", Suite: "entry", CoqImports: []string{"Check.C21"},
 		CoqType: "list Z", CoqRun: "Check.C21.run_entry",
-		Quick: 30, Thorough: 3000, Parallel: 1, Timeout: 120 * time.Second,
+		Quick: 30, Thorough: 1500, Parallel: 1, Timeout: 120 * time.Second,
 		Corpus: func() []c21EntryCase {
 			return []c21EntryCase{
 				// one GracefulClose parked on pc.mu, a second one right behind the Unlock
